@@ -72,7 +72,7 @@ func (c *Ctx) Scale(quick, thorough int) int {
 	return quick
 }
 
-func (c *Ctx) Count(key string) { c.Res.Distribution[key]++ }
+func (c *Ctx) Count(key string)         { c.Res.Distribution[key]++ }
 func (c *Ctx) CountN(key string, n int) { c.Res.Distribution[key] += n }
 
 func hash64(s string) uint64 {
@@ -161,7 +161,7 @@ type Spec[T any] struct {
 	// Signature tags a failing case with a known-finding signature ("" = unknown).
 	Signature func(t T, impl, model Sexp) string
 	// Tags feeds the distribution counters.
-	Tags    func(t T, impl Sexp) []string
+	Tags func(t T, impl Sexp) []string
 	// Key identifies a case for the distinct count (default: the request line).
 	Key     func(t T) string
 	Timeout time.Duration
